@@ -98,6 +98,7 @@ type execResult struct {
 }
 
 type harness struct {
+	maxBound int // 0 = the tier's bounds; otherwise the highest preemption bound explored for this (long) harness
 	name string
 	// setup returns the thread bodies, objects to mark shared, and a finish function evaluated after the run
 	setup func() (bodies []func(), shared []interface{}, finish func() (obs string, bad string))
@@ -484,6 +485,9 @@ func runC16(c *fw.Ctx) {
 		st := &exploreStats{outcomes: map[string]int{}}
 		completed := -1
 		for _, bnd := range bounds {
+			if h.maxBound > 0 && bnd > h.maxBound {
+				break
+			}
 			before := st.executions
 			st2 := &exploreStats{outcomes: st.outcomes}
 			explore(c, h, bnd, maxExec, st2, report(h.name))
@@ -659,6 +663,12 @@ func runC16(c *fw.Ctx) {
 		"ok-a":     "JSIGHT 0.3\nTYPE @t\n  {\"id\": 1}\nGET /a // note\n  200 @t\n",
 		"ok-b":     "JSIGHT 0.3\nTAG @g\nURL /b\n  POST\n    Tags @g\n    Request regex\n      /x+/\n    200 any\n",
 		"rejected": "JSIGHT 0.3\nGET /c\n  200 @nope\n",
+		// documents that walk through as much of the library as one text can: quoted parameters with
+		// escapes, INFO / SERVER / TAG / ENUM, allOf, macros, descriptions, both annotation spellings,
+		// regex, path parameters, JSON-RPC (anything the library keeps outside the JApiCore of one
+		// parse - a table, a cache, a scratch buffer - is touched by both threads)
+		"rich-a": "JSIGHT 0.3\nINFO\n  Title \"A \\\"quoted\\\" \\\\ title\"\n  Version 1.0\n  Description\n    Text a\n      more\nSERVER @sa // main\n  BaseUrl \"https://a.io/v\\\\1\"\nTAG @ga /* group a */\nENUM @ea\n  [\"x\", \"y\"]\nTYPE @base\n  {\"id\": 1}\nTYPE @ta\n  { // {allOf: \"@base\"}\n    \"k\": \"x\" // {enum: @ea}\n  }\nMACRO @ma\n(\n  404 any\n)\nURL /a/{id}\n  Path\n    {\"id\": 1}\n  GET // get a\n    Tags @ga\n    Query \"q=\\\"1\\\"\"\n      {\"q\": \"1\"}\n    200 @ta\n    PASTE @ma\n  POST\n    Request regex\n      /a+/\n    201 [@ta]\nURL /rpc\n  Protocol json-rpc-2.0\n  Method \"do \\\\ a\"\n    Params\n      {\"p\": @ta}\n",
+		"rich-b": "JSIGHT 0.3\nINFO\n  Title \"B \\\\\\\\ and \\\"b\\\"\"\n  Version \"2 \\\\ b\"\nSERVER @sb\n  BaseUrl \"https://b.io/\\\"x\\\"\"\nTAG @gb // group b\n  Description\n    about b\nENUM @eb\n  [1, 2]\nTYPE @tb\n  {\n    \"n\": 1, // {enum: @eb}\n    \"o\": {\"deep\": true}\n  }\nMACRO @mb\n(\n  Description\n    pasted b\n  500 any\n)\nDELETE /b/{bid} /* delete b */\n  Path\n    {\"bid\": \"z\"}\n  Tags @gb\n  Query \"w=\\\\2\"\n    {\"w\": 2}\n  PASTE @mb\n  204 empty\nPUT /b2\n  Request\n    Headers\n      {\"H\": \"v\"}\n    Body @tb\n  200 regex\n    /b{2}/\n",
 	}
 	parse := func(text string) string {
 		cc := core.NewJApiCore(fs.NewFile("root.jst", []byte(text)), core.WithFixedSeedForRegex())
@@ -675,9 +685,21 @@ func runC16(c *fw.Ctx) {
 	for k, v := range docs {
 		solo[k] = parse(v)
 	}
-	for _, pair := range [][]string{{"ok-a", "ok-a"}, {"ok-a", "ok-b"}, {"ok-b", "rejected"}, {"rejected", "rejected"}} {
+	for k, v := range solo {
+		if strings.HasPrefix(k, "rich") && (strings.HasPrefix(v, "err ") || strings.HasPrefix(v, "sererr")) {
+			c.Note("harness_fault", "H3 document "+k+" is not accepted: "+clipS(v, 200))
+			c.NotExhaustive("H3 document " + k + " rejected")
+		}
+	}
+	for _, pair := range [][]string{{"ok-a", "ok-a"}, {"ok-a", "ok-b"}, {"ok-b", "rejected"}, {"rejected", "rejected"}, {"rich-a", "rich-b"}, {"rich-a", "rich-a"}} {
 		pair := pair
 		h := harness{name: "H3-parses " + strings.Join(pair, "+")}
+		if strings.HasPrefix(pair[0], "rich") {
+			h.maxBound = 1 // long executions (thousands of monitored accesses): preemption bound 1 in the quick tier, 2 in the thorough tier
+			if !c.Quick() {
+				h.maxBound = 2
+			}
+		}
 		h.setup = func() ([]func(), []interface{}, func() (string, string)) {
 			res := make([]string, len(pair))
 			var bodies []func()
